@@ -350,6 +350,8 @@ class Table(JupyterMixin):
             ratio=ratio,
             no_wrap=no_wrap,
         )
+        for _ in self.rows:
+            column._cells.append(Text(""))
         self.columns.append(column)
 
     def add_row(
